@@ -190,7 +190,7 @@ def r2(idx, rep):
 
     stdlib = {"io.StringIO": lambda i, c, r, a, k: io.StringIO(*a), "csv.writer": _safe(csv.writer), "csv.reader": _safe(csv.reader),
               "hashlib.sha256": lambda i, c, r, a, k: hashlib.sha256(*a), "os.path.join": lambda i, c, r, a, k: "/".join(a),
-              "os.path.basename": lambda i, c, r, a, k: a[0].rpartition("/")[2]}
+              "os.path.basename": lambda i, c, r, a, k: (a[0].rpartition("/")[2] if isinstance(a[0], str) else Residual(f"os.path.basename({a[0]})"))}
 
     def _nofile(i, c, r, a, k):
         raise Raised("FileNotFoundError")
